@@ -620,6 +620,7 @@ def run(P, R, tier):
     clamp_rule(P, R)
     trialreset_rule(P, R)
     savefree_rule(P, R)
+    halfstep_rule(P, R)
     timeorigin_rule(P, R)
 
 
@@ -1183,3 +1184,74 @@ def step_rule(P, R, f, cfg, where):
     else:
         R.violation(rule, "final time", "after the integration loop rate_sim_time is not set to rate_sim_time_start + kin_time",
                     line=loop[1], **where)
+
+
+def halfstep_rule(P, R):
+    """Kinetics inside an advective TRANSPORT shift: the water that leaves the column through the inflow cell has been there for half a
+    time step on average, so transport() reacts the inflow cell (first_c: cell 1 for forward, cell n for backward flow) for timest/2
+    before the shift and for timest/2 after it, every other cell once for timest.  Three sites must name the same cell: the pre-shift
+    half step `run_reactions(<cell>, kin_time_save / 2 ...)`, the `if (i == <cell>) kin_time /= 2` in the loop after the shift and the
+    `if (i == <cell>) kin_time = kin_time_save` that ends it.  If they differ, one cell reacts for 1.5 and another for 0.5 time steps:
+    the reactants no longer follow the closed-form solutions although mass balance and reported times stay right."""
+    RULE = "C12.halfstep"
+    R.rule(RULE, "transport: the pre-shift half step, the halving and the restoring of kin_time after the shift name the same (inflow) cell", minimum=3)
+    f = P.one("Phreeqc::transport")
+
+    def is_kin_time(n):
+        n = T.strip_casts(n)
+        return T.is_node(n) and n[0] == "Ref" and n[3] == "kin_time"
+
+    def single(st):
+        return st[2][0] if T.is_node(st) and st[0] == "Compound" and len(st[2]) == 1 else st
+
+    def eq_operand(cond):
+        """E of a conjunct `i == E`"""
+        out = []
+
+        def rec(c):
+            c = T.strip_casts(c)
+            if T.is_node(c) and c[0] == "Paren":
+                return rec(c[2])
+            if T.is_node(c) and c[0] == "Bin" and c[2] == "&&":
+                rec(c[3])
+                rec(c[4])
+                return
+            if T.is_node(c) and c[0] == "Bin" and c[2] == "==":
+                a, b = T.strip_casts(c[3]), T.strip_casts(c[4])
+                if T.is_node(a) and a[0] == "Ref" and a[3] == "i":
+                    out.append(" ".join(T.text(b).split()))
+                elif T.is_node(b) and b[0] == "Ref" and b[3] == "i":
+                    out.append(" ".join(T.text(a).split()))
+        rec(cond)
+        return out
+    pre, halve, restore = [], [], []
+    for x in T.walk(f["body"]):
+        if x[0] == "Compound":
+            st = x[2]
+            for k, s_ in enumerate(st):
+                # kin_time = kin_time_save / 2; run_reactions(E, kin_time, ...)
+                if T.is_node(s_) and s_[0] == "Bin" and s_[2] == "=" and is_kin_time(s_[3]) and T.is_node(T.strip_casts(s_[4])) and T.strip_casts(s_[4])[0] == "Bin" \
+                        and T.strip_casts(s_[4])[2] == "/" and T.lit_value(T.strip_casts(T.strip_casts(s_[4])[4])) == 2:
+                    for nx in st[k + 1:k + 3]:
+                        if T.is_node(nx) and nx[0] == "Call" and T.callee_name(nx) == "run_reactions" and nx[4]:
+                            pre.append((nx[1], " ".join(T.text(nx[4][0]).split())))
+        if x[0] == "If" and not T.is_node(x[4]):
+            b = single(x[3])
+            if T.is_node(b) and b[0] == "Bin" and is_kin_time(b[3]):
+                ops = eq_operand(x[2])
+                if b[2] == "/=" and T.lit_value(T.strip_casts(b[4])) == 2 and ops:
+                    halve.append((x[1], ops[0]))
+                elif b[2] == "=" and T.is_node(T.strip_casts(b[4])) and T.strip_casts(b[4])[0] == "Ref" and T.strip_casts(b[4])[3] == "kin_time_save" and ops:
+                    restore.append((x[1], ops[0]))
+    if len(pre) != 1 or len(halve) != 1 or len(restore) != 1:
+        R.anchor_missing(RULE, "transport: half-step sites found: pre %d, halve %d, restore %d (1 each expected)" % (len(pre), len(halve), len(restore)))
+        return
+    ref = pre[0][1]
+    R.ok(RULE, "pre-shift", "run_reactions(%s, kin_time_save / 2) at line %d" % (ref, pre[0][0]))
+    for tag, (line, e) in (("halve", halve[0]), ("restore", restore[0])):
+        if e == ref:
+            R.ok(RULE, tag, "`i == %s` at line %d" % (e, line))
+        else:
+            R.violation(RULE, tag, "the pre-shift half step is given to cell `%s` (line %d) but kin_time is %s after the shift for `i == %s` (line %d): with the other flow "
+                        "direction one end cell reacts for 1.5 and the other for 0.5 time steps per shift" % (ref, pre[0][0], "halved" if tag == "halve" else "restored", e, line),
+                        file=f["file"], line=line, function=f["q"])
